@@ -239,46 +239,74 @@ def parse_out_vcf(path):
 
 
 def cli_case(ctx, rng, idx, big):
+    """one simulated data set, genotyped three times: at a drawn threshold, and at two thresholds placed just below
+    and just above the quality (−10·log10(1 − max posterior)) of one of its calls, so that the threshold rule is
+    exercised exactly where it flips"""
     from harness.gen import sim
     trio = (idx % 3 == 2)
     samples = ("mother", "father", "child") if trio else ("S1",)
     sc = sim.Scenario(rng, n_contigs=1, contig_len=(700, 1300) if not big else (1500, 2500),
                       n_variants=(4, 10) if not big else (10, 22), samples=samples, depth=(2, 6),
                       read_len=(120, 420), het_prob=0.7)
-    # sequencing errors at variant sites so that likelihoods are not all 0/1: flip some read bases
+    # sequencing errors at the variant sites (SNVs only, so CIGARs are all-match): the other allele
     for rd in sc.reads:
-        if rng.random() < 0.5:
-            s = list(rd["seq"]); k = rng.randrange(len(s)); s[k] = rng.choice([b for b in "ACGT" if b != s[k]]); rd["seq"] = "".join(s)
+        seq = list(rd["seq"])
+        for vi in rd["covered"]:
+            v = sc.variants[rd["chrom"]][vi]
+            if rng.random() < 0.12:
+                off = v.pos - rd["start"]
+                seq[off] = v.alt if seq[off] == v.ref else v.ref
+        rd["seq"] = "".join(seq)
     d = os.path.join(ctx.workdir(), f"cli{idx}")
     shutil.rmtree(d, ignore_errors=True)
     fa, bam, vcf = sc.write(d)
-    thr = rng.choice([0, 0, 1, 3, 5, 10, 20, 40, 90])
-    args = ["genotype", "--reference", fa, "--gt-qual-threshold", thr, "-o", os.path.join(d, "out.vcf"), "--ignore-read-groups"] \
-        if not trio else ["genotype", "--reference", fa, "--gt-qual-threshold", thr, "-o", os.path.join(d, "out.vcf")]
+    base = ["genotype", "--reference", fa, "-o", os.path.join(d, "out.vcf")] + ([] if trio else ["--ignore-read-groups"])
     if rng.random() < 0.4:
-        args.append("--no-priors")
+        base.append("--no-priors")
     elif rng.random() < 0.4:
-        args += ["--constant", rng.choice(["0.01", "1", "5"])]
+        base += ["--constant", rng.choice(["0.01", "1", "5"])]
     if trio:
         pedf = os.path.join(d, "t.ped")
         open(pedf, "w").write("fam child father mother 0 1\n")
-        args += ["--ped", pedf, "--recombrate", rng.choice(["1.26", "50", "0.001"])]
-    args += [vcf, bam]
-    rc, out, err, _ = sim.whatshap(args, ctx.overlay)
-    info = {"kind": "cli", "args": [str(a) if not str(a).startswith(d) else os.path.basename(str(a)) for a in args],
-            "threshold": thr, "trio": trio}
-    ctx.evaluated()
-    if rc != 0:
-        ctx.fail("whatshap genotype failed: " + err[-400:], info, key="cli-failed")
-        shutil.rmtree(d, ignore_errors=True); return
-    recs = parse_out_vcf(os.path.join(d, "out.vcf"))
-    called, nocall, amb = check_vcf_calls(ctx, recs, thr, info)
-    ctx.dist("cli_threshold", thr); ctx.dist("cli_called_frac", round(called / max(1, called + nocall), 1))
-    ctx.extra["cli_calls_checked"] = ctx.extra.get("cli_calls_checked", 0) + called + nocall
-    ctx.extra["cli_calls_ambiguous_by_rounding"] = ctx.extra.get("cli_calls_ambiguous_by_rounding", 0) + amb
-    if called and (nocall or any((c.get("GQ") or 0) < 10000 for r in recs for c in r["calls"])):
-        ctx.nontrivial("cli" + json.dumps(info["args"]) + str(idx) + str(ctx.seed))
-    ctx.validated()
+        base += ["--ped", pedf, "--recombrate", rng.choice(["1.26", "50", "0.001"])]
+
+    def one(thr):
+        args = base + ["--gt-qual-threshold", thr, vcf, bam]
+        rc, out, err, _ = sim.whatshap(args, ctx.overlay)
+        info = {"kind": "cli", "args": [os.path.basename(str(a)) if str(a).startswith(d) else str(a) for a in args],
+                "threshold": thr, "trio": trio}
+        ctx.evaluated()
+        if rc != 0:
+            ctx.fail("whatshap genotype failed: " + err[-400:], info, key="cli-failed")
+            return None
+        recs = parse_out_vcf(os.path.join(d, "out.vcf"))
+        called, nocall, amb = check_vcf_calls(ctx, recs, float(thr), info)
+        ctx.dist("cli_called_frac", round(called / max(1, called + nocall), 1))
+        ctx.extra["cli_calls_checked"] = ctx.extra.get("cli_calls_checked", 0) + called + nocall
+        ctx.extra["cli_calls_ambiguous_by_rounding"] = ctx.extra.get("cli_calls_ambiguous_by_rounding", 0) + amb
+        if called and (nocall or any((c.get("GQ") or 0) < 10000 for r in recs for c in r["calls"])):
+            ctx.nontrivial("cli" + json.dumps(info["args"]) + str(idx) + str(ctx.seed))
+        ctx.validated()
+        return recs
+
+    thr0 = rng.choice([0, 0, 1, 3, 5, 10, 20, 40, 90])
+    recs = one(thr0)
+    if recs is not None:
+        # qualities of the calls with a unique maximum: thresholds right below / above one of them
+        quals = []
+        for r in recs:
+            for c in r["calls"]:
+                gl = c.get("GL")
+                if gl and len(gl) == 3 and all(x is not None for x in gl):
+                    srt = sorted(gl)
+                    if srt[2] > srt[1] and srt[2] < -1e-7:
+                        quals.append(-10.0 * math.log10(1.0 - 10.0 ** srt[2]))
+        quals = [q for q in quals if 0.3 < q < 200]
+        ctx.dist("cli_has_flip_quality", bool(quals))
+        if quals:
+            q = rng.choice(quals)
+            for thr in (round(max(0.0, q - rng.choice([0.05, 0.2, 1.0])), 3), round(q + rng.choice([0.05, 0.2, 1.0]), 3)):
+                one(thr)
     shutil.rmtree(d, ignore_errors=True)
 
 
@@ -463,7 +491,7 @@ def run(ctx):
 
     import time
     ctx.extra["library_part_s"] = round(time.time() - ctx.t0, 1)
-    n_cli = (8 if ctx.quick else 40) * ctx.scale
+    n_cli = (5 if ctx.quick else 30) * ctx.scale
     for k in range(n_cli):
         cli_case(ctx, rng, k, big=(not ctx.quick and k % 4 == 0))
     shutil.rmtree(ctx.workdir(), ignore_errors=True)
